@@ -495,11 +495,24 @@ class C02Monitor(Monitor):
     def on(self, kind, tree, info):
         x = self.x
         if kind == "round_end":
+            origin = {}
+            for l, d in tree.all_demes:
+                for gen in d.history:
+                    for ind in gen:
+                        origin.setdefault(id(ind), l)
             for d, c in info["seeds"].items():
                 for ind in c.individuals:
-                    self.check_ind(ind, d.level, f"seed returned for {d.id}", type(d).__name__)
+                    self.check_ind(ind, origin.get(id(ind), d.level), f"seed returned for {d.id}", type(d).__name__ + "-returned-seed")
         if kind not in ("boundary", "end"):
             return
+        # an individual is judged by the objective of the level that created it: the shallowest level whose
+        # histories contain the object (a LocalDeme records its parent's seed individual as generation 0)
+        origin = {}
+        for l, d in tree.all_demes:
+            for gen in d.history:
+                for ind in gen:
+                    if id(ind) not in origin:
+                        origin[id(ind)] = l
         for l, d in tree.all_demes:
             typ = type(d).__name__
             hist = d.history
@@ -512,16 +525,16 @@ class C02Monitor(Monitor):
                     continue
                 self.digests[kk] = dig
                 for ind in gen:
-                    self.check_ind(ind, l, f"{typ} {d.id} generation {gi}", typ)
+                    self.check_ind(ind, origin.get(id(ind), l), f"{typ} {d.id} generation {gi}", typ)
             for nm in ("best_individual", "best_current_individual"):
                 ind = getattr(d, nm)
                 if ind is not None:
-                    self.check_ind(ind, l, f"{typ} {d.id}.{nm}", typ)
+                    self.check_ind(ind, origin.get(id(ind), l), f"{typ} {d.id}.{nm}", typ)
             sd = seed_of(d)
             if sd is not _UNOBS and sd is not None and l >= 1:
-                self.check_ind(sd, l - 1, f"sprout seed of {d.id}", typ + "-seed")
+                self.check_ind(sd, origin.get(id(sd), l - 1), f"sprout seed of {d.id}", typ + "-seed")
         bi = tree.best_individual
-        lvl = next((l for l, d in tree.all_demes if any(bi is i for i in d.all_individuals)), None)
+        lvl = origin.get(id(bi))
         if lvl is not None:
             self.check_ind(bi, lvl, "tree.best_individual", "tree")
         x.flag("boundary checked")
